@@ -160,3 +160,13 @@ def ob_psid(b0: int, b1: int, b2: int, b3: int) -> bool:
     with NoTracing():
         sys.stderr.write('RET %r\n' % (type(r[0]['type']).__name__ if r else None,))
     return True
+
+def ob_fs(x: int) -> bool:
+    from yabgp.message.attribute.nlri.ipv4_flowspec import IPv4FlowSpec
+    import traceback, sys
+    try:
+        r = IPv4FlowSpec.construct_operators('=256')
+    except Exception:
+        sys.stderr.write(traceback.format_exc())
+        return False
+    return True
